@@ -166,7 +166,7 @@ func init() {
 		"(*sync.Once).Do":                  ext۰sync۰Once۰Do,
 		"(*sync.Once).doSlow":              ext۰sync۰Once۰Do,
 		"(*sync.Pool).Get":                 ext۰sync۰Pool۰Get,
-		"(*sync.Pool).Put":                 noop,
+		"(*sync.Pool).Put":                 ext۰sync۰Pool۰Put,
 		"(*sync.Cond).Signal":              noop,
 		"(*sync.Cond).Broadcast":           noop,
 		"sync.runtime_registerPoolCleanup": noop,
@@ -1102,8 +1102,27 @@ func ext۰sync۰Once۰Do(fr *frame, args []value) value {
 	return nil
 }
 
+func ext۰sync۰Pool۰Put(fr *frame, args []value) value {
+	if fr.i.cfg.PoolReuse {
+		p := args[0].(*value)
+		if fr.i.pools == nil {
+			fr.i.pools = map[*value][]value{}
+		}
+		fr.i.pools[p] = append(fr.i.pools[p], args[1])
+	}
+	return nil
+}
+
 func ext۰sync۰Pool۰Get(fr *frame, args []value) value {
 	p := args[0].(*value)
+	if fr.i.cfg.PoolReuse {
+		// adversarial (and legal) pool schedule: hand back the most recently returned object
+		if l := fr.i.pools[p]; len(l) > 0 {
+			v := l[len(l)-1]
+			fr.i.pools[p] = l[:len(l)-1]
+			return v
+		}
+	}
 	st := (*p).(structure)
 	newFn := st[len(st)-1]
 	switch f := newFn.(type) {
